@@ -207,6 +207,7 @@ Inductive lop :=
 | LDrain (p : proto)
 | LQuit (i : nat)             (* POP3: send QUIT, read the reply, do not wait for the connection to close *)
 | LEnd (i : nat)              (* wait for the server to close the connection, look at the mailbox *)
+| LAcceptHold (i : nat) (p : proto)   (* connect while the serve goroutine is held between the kernel's accept and wg.Add *)
 | LPlain                      (* a client that fails the TLS handshake of a ForceTLS POP3 server *)
 | LGate                       (* the store's RemoveMessage now blocks … *)
 | LUngate.                    (* … until here *)
@@ -217,22 +218,23 @@ Inductive lobs :=
 | XOk                        (* POP3 +OK *)
 | XFinS (data : option nat) (quit : nat) (n : nat)
 | XFinP (ok : bool) (n : nat)
-| XDropped
+| XDropped | XParked
 | XReturned | XBlocked | XJoined | XFine | XOther.
 
-Record world := mkW { wc : bool; ws : srv; wp : srv; wgate : bool }.
+Record world := mkW { wc : bool; ws : srv; wp : srv; wgate : bool;
+                      wpend : list (nat * proto) (* accepted by the kernel, held before wg.Add *) }.
 
-Definition world_init : world := mkW false (srv_init PSmtp) (srv_init PPop3) false.
+Definition world_init : world := mkW false (srv_init PSmtp) (srv_init PPop3) false [].
 
 Definition srv_of (w : world) (p : proto) : srv := match p with PSmtp => ws w | PPop3 => wp w end.
 Definition set_srv (w : world) (p : proto) (v : srv) : world :=
-  match p with PSmtp => mkW (wc w) v (wp w) (wgate w) | PPop3 => mkW (wc w) (ws w) v (wgate w) end.
+  match p with PSmtp => mkW (wc w) v (wp w) (wgate w) (wpend w) | PPop3 => mkW (wc w) (ws w) v (wgate w) (wpend w) end.
 
 (** Run actions on one server of the world; [None] if one is not enabled. *)
 Definition wrun (w : world) (p : proto) (acts : list action) : option world :=
   match run (mkSys (wc w) (srv_of w p)) acts with
   | None => None
-  | Some y => Some (set_srv (mkW (cancelled y) (ws w) (wp w) (wgate w)) p (sv y))
+  | Some y => Some (set_srv (mkW (cancelled y) (ws w) (wp w) (wgate w) (wpend w)) p (sv y))
   end.
 
 (** Session ids are global in the driver; which server holds session i? *)
@@ -257,8 +259,25 @@ Definition greeting (p : proto) : lobs := match p with PSmtp => XCode 220 | PPop
 (** ids of probe sessions: never used by the generator *)
 Definition probe_id (w : world) : nat := 1000 + length (ss (ws w)) + length (ss (wp w)).
 
+Fixpoint pend_proto (i : nat) (xs : list (nat * proto)) : option proto :=
+  match xs with [] => None | (k, p) :: t => if Nat.eqb k i then Some p else pend_proto i t end.
+Fixpoint pend_rm (i : nat) (xs : list (nat * proto)) : list (nat * proto) :=
+  match xs with [] => [] | (k, p) :: t => if Nat.eqb k i then t else (k, p) :: pend_rm i t end.
+
+(** wg.Add(1); go startSession — whatever has happened to the listener meanwhile *)
+Definition count_late (v : srv) (i : nat) : srv :=
+  mkSrv (pr v) (lopen v) (S (wg v)) (ss v ++ [(i, mkS Held 0 1 false false)]).
+
 Definition lstep (w : world) (o : lop) : world * lobs :=
   match o with
+  | LAcceptHold i p =>
+      match where_is w i, pend_proto i (wpend w) with
+      | None, None =>
+          if lopen (srv_of w p)
+          then (mkW (wc w) (ws w) (wp w) (wgate w) (wpend w ++ [(i, p)]), XParked)
+          else (w, XRefused)
+      | _, _ => (w, XQ)
+      end
   | LOpen i p =>
       match where_is w i with
       | Some _ => (w, XQ)
@@ -278,7 +297,13 @@ Definition lstep (w : world) (o : lop) : world * lobs :=
   | LRelease i =>
       match where_is w i with
       | Some p => match wrun w p [Begin i] with Some w' => (w', greeting p) | None => (w, XQ) end
-      | None => (w, XQ)
+      | None =>
+          match pend_proto i (wpend w) with
+          | Some p =>
+              let w1 := set_srv (mkW (wc w) (ws w) (wp w) (wgate w) (pend_rm i (wpend w))) p (count_late (srv_of w p) i) in
+              match wrun w1 p [Begin i] with Some w' => (w', greeting p) | None => (w1, XQ) end
+          | None => (w, XQ)
+          end
       end
   | LAdvance i to =>
       match where_is w i with
@@ -286,7 +311,7 @@ Definition lstep (w : world) (o : lop) : world * lobs :=
       | None => (w, XQ)
       end
   | LCancel =>
-      let w1 := mkW true (ws w) (wp w) (wgate w) in
+      let w1 := mkW true (ws w) (wp w) (wgate w) (wpend w) in
       let w2 := match wrun w1 PSmtp [LClose] with Some x => x | None => w1 end in
       let w3 := match wrun w2 PPop3 [LClose] with Some x => x | None => w2 end in
       (w3, XDot)
@@ -343,9 +368,9 @@ Definition lstep (w : world) (o : lop) : world * lobs :=
       | Some w' => (w', XDropped)
       | None => (w, XRefused)
       end
-  | LGate => (mkW (wc w) (ws w) (wp w) true, XDot)
+  | LGate => (mkW (wc w) (ws w) (wp w) true (wpend w), XDot)
   | LUngate =>
-      let w0 := mkW (wc w) (ws w) (wp w) false in
+      let w0 := mkW (wc w) (ws w) (wp w) false (wpend w) in
       (fold_left (fun x (p : nat * session) =>
                     match ph (snd p) with
                     | PUpdate => match wrun x PPop3 [Purge (fst p); Exit (fst p)] with Some x' => x' | None => x end
@@ -369,7 +394,11 @@ Definition lstep (w : world) (o : lop) : world * lobs :=
       | Some w' => (w', XAccepted)
       | None => (w, XRefused)
       end
-  | LDrain p => (w, if Nat.eqb (wg (srv_of w p)) 0 then XReturned else XBlocked)
+  | LDrain p =>
+      (* Server.wg = the sessions' counts + the accept loop's own (repair 0022); the loop exits once the
+         listener is closed, unless it still holds a connection it has to count and start first *)
+      let held := existsb (fun x => match snd x, p with PSmtp, PSmtp | PPop3, PPop3 => true | _, _ => false end) (wpend w) in
+      (w, if Nat.eqb (wg (srv_of w p)) 0 && negb (lopen (srv_of w p)) && negb held then XReturned else XBlocked)
   end.
 
 Fixpoint lsteps (w : world) (ops : list lop) : world * list lobs :=
@@ -393,6 +422,7 @@ Inductive lverdict :=
 | LVAcceptedAfterShutdown (k : nat)      (* op index *)
 | LVSessionDisturbed (k : nat)           (* an open session got a reply its dialogue does not entitle it to *)
 | LVDrainEarly (k : nat)                 (* Drain returned while an accepted session was alive *)
+| LVDrainUncounted (k : nat)             (* … and every such session was still in the accept-to-count window *)
 | LVDrainStuck (k : nat)                 (* Drain did not return although no session was alive *)
 | LVFinal (k : nat).                     (* after everything ended: Drain / Join / hub did not come back *)
 
@@ -408,7 +438,7 @@ Definition open_count (p : proto) (bs : list book) : nat :=
 
 Definition lobs_eqb (a b : lobs) : bool :=
   match a, b with
-  | XDropped, XDropped | XDot, XDot | XQ, XQ | XRefused, XRefused | XHeld, XHeld | XAccepted, XAccepted | XOk, XOk
+  | XParked, XParked | XDropped, XDropped | XDot, XDot | XQ, XQ | XRefused, XRefused | XHeld, XHeld | XAccepted, XAccepted | XOk, XOk
   | XReturned, XReturned | XBlocked, XBlocked | XJoined, XJoined | XFine, XFine => true
   | XCode x, XCode y => Nat.eqb x y
   | XFinS d q n, XFinS d' q' n' =>
@@ -418,7 +448,16 @@ Definition lobs_eqb (a b : lobs) : bool :=
   | _, _ => false
   end.
 
-Fixpoint loracle_go (k : nat) (ops : list lop) (os : list lobs) (down : bool) (bs : list book)
+(** ids connected in the accept-to-count window and not yet released *)
+Fixpoint uncounted (ops : list lop) (acc : list nat) : list nat :=
+  match ops with
+  | [] => acc
+  | LAcceptHold i _ :: t => uncounted t (i :: acc)
+  | LRelease i :: t | LAbort i :: t => uncounted t (filter (fun x => negb (Nat.eqb x i)) acc)
+  | _ :: t => uncounted t acc
+  end.
+
+Fixpoint loracle_go (all : list lop) (k : nat) (ops : list lop) (os : list lobs) (down : bool) (bs : list book)
   : lverdict * list lobs :=
   match ops with
   | [] => (LVOk, os)
@@ -426,12 +465,16 @@ Fixpoint loracle_go (k : nat) (ops : list lop) (os : list lobs) (down : bool) (b
       match os with
       | [] => (LVShape, [])
       | x :: os' =>
-          let next := loracle_go (S k) t os' in
+          let next := loracle_go all (S k) t os' in
           match o with
           | LCancel => next true bs
           | LOpen i p =>
               if down then (if lobs_eqb x XRefused then next down bs else (LVAcceptedAfterShutdown k, os'))
               else if lobs_eqb x (greeting p) then next down (bs ++ [mkB i p Greeted true])
+              else (LVSessionDisturbed k, os')
+          | LAcceptHold i p =>
+              if down then (if lobs_eqb x XRefused then next down bs else (LVAcceptedAfterShutdown k, os'))
+              else if lobs_eqb x XParked then next down (bs ++ [mkB i p Held true])
               else (LVSessionDisturbed k, os')
           | LOpenHeld i p =>
               if down then (if lobs_eqb x XRefused then next down bs else (LVAcceptedAfterShutdown k, os'))
@@ -498,8 +541,16 @@ Fixpoint loracle_go (k : nat) (ops : list lop) (os : list lobs) (down : bool) (b
               else if lobs_eqb x XDropped then next down bs else (LVSessionDisturbed k, os')
           | LGate | LUngate => next down bs
           | LDrain p =>
+              if negb down then next down bs   (* Drain is only promised anything after shutdown was requested *)
+              else
               match x with
-              | XReturned => if Nat.eqb (open_count p bs) 0 then next down bs else (LVDrainEarly k, os')
+              | XReturned =>
+                  if Nat.eqb (open_count p bs) 0 then next down bs
+                  else
+                    let unc := uncounted (firstn k all) [] in
+                    if forallb (fun b => negb (b_open b && match b_pr b, p with PSmtp, PSmtp | PPop3, PPop3 => true | _, _ => false end)
+                                         || existsb (Nat.eqb (b_id b)) unc) bs
+                    then (LVDrainUncounted k, os') else (LVDrainEarly k, os')
               | XBlocked => if Nat.eqb (open_count p bs) 0 then (LVDrainStuck k, os') else next down bs
               | _ => (LVShape, os')
               end
@@ -508,7 +559,7 @@ Fixpoint loracle_go (k : nat) (ops : list lop) (os : list lobs) (down : bool) (b
   end.
 
 Definition loracle (ops : list lop) (os : list lobs) : lverdict :=
-  match loracle_go 0 ops os false [] with
+  match loracle_go ops 0 ops os false [] with
   | (LVOk, tl_os) =>
       match tl_os with
       | [a; b; c; d; e] =>
